@@ -22,6 +22,12 @@ const (
 	EV_KEY_REPEAT  = 2
 )
 
+// trackedKey identifies a key of the device: mappings are per sub-handler, the same code may exist in several of them
+type trackedKey struct {
+	handler string
+	code    evdev.EvCode
+}
+
 type Device struct {
 	noLogs      bool // skips producing most of the log entries for maximum performance
 	config      config.Config
@@ -41,8 +47,8 @@ type Device struct {
 	// is being tracked and released precisely on related hardware button release.
 	// This approach gives much nicer user experience as the User may conveniently hold some keys
 	// and modify state on the fly (changing octave, channel etc.), NoteOff events will be emitted correctly anyway.
-	noteTracker       map[evdev.EvCode][2]byte // 1: note, 2: channel
-	analogNoteTracker map[string][2]byte       // 1: note, 2: channel
+	noteTracker       map[trackedKey][2]byte // 1: note, 2: channel
+	analogNoteTracker map[string][2]byte     // 1: note, 2: channel
 	// used to track active occurrence number for given channel/note for purpose of handling clashed notes.
 	// more info in hidi.toml at "collision_mode" option.
 	activeNotesCounter map[byte]map[byte]int // map[channel]map[note]occurrence_number
@@ -131,7 +137,7 @@ func NewDevice(
 		externalNoteTracker:  inmap,
 		openrgbPort:          openrgbPort,
 
-		noteTracker:        make(map[evdev.EvCode][2]byte, 32),
+		noteTracker:        make(map[trackedKey][2]byte, 32),
 		keyTracker:         make(map[evdev.EvCode]struct{}, 32),
 		analogNoteTracker:  make(map[string][2]byte, 32),
 		activeNotesCounter: activeNoteCounter,
@@ -238,12 +244,13 @@ func (d *Device) NoteOn(ev *input.InputEvent) {
 		panic("unsupported collision mode")
 	}
 
-	d.noteTracker[ev.Event.Code] = [2]byte{note, channel}
+	d.noteTracker[trackedKey{ev.Source.Name, ev.Event.Code}] = [2]byte{note, channel}
 	d.activeNotesCounter[channel][note]++
 }
 
 func (d *Device) NoteOff(ev *input.InputEvent) {
-	noteAndChannel, ok := d.noteTracker[ev.Event.Code]
+	key := trackedKey{ev.Source.Name, ev.Event.Code}
+	noteAndChannel, ok := d.noteTracker[key]
 	if !ok {
 		return
 	}
@@ -254,18 +261,18 @@ func (d *Device) NoteOff(ev *input.InputEvent) {
 	case config.CollisionOff:
 		event = midi.NoteEvent(midi.NoteOff, channel, note, 0)
 		d.outputEvents <- event
-		delete(d.noteTracker, ev.Event.Code)
+		delete(d.noteTracker, key)
 		if !d.noLogs {
 			log.Info(event.String(), d.logFields(logger.Keys, zap.String("handler_event", ev.Source.DeviceInfo.Event()))...)
 		}
 	case config.CollisionNoRepeat, config.CollisionRetrigger, config.CollisionInterrupt:
 		if d.activeNotesCounter[channel][note] != 1 {
-			delete(d.noteTracker, ev.Event.Code)
+			delete(d.noteTracker, key)
 			break
 		}
 		event = midi.NoteEvent(midi.NoteOff, channel, note, 0)
 		d.outputEvents <- event
-		delete(d.noteTracker, ev.Event.Code)
+		delete(d.noteTracker, key)
 		if !d.noLogs {
 			log.Info(event.String(), d.logFields(logger.Keys, zap.String("handler_event", ev.Source.DeviceInfo.Event()))...)
 		}
